@@ -1,10 +1,54 @@
-/- Line-protocol handlers for C17 (placeholder until the property is built). -/
-import PandoraModel.Model.Basic
+/- Line-protocol handlers for C17 (dataset and input-section checking): model and specification. -/
+import PandoraModel.Driver.ConfigJson
 
 namespace Pandora.Driver.C17
 open Lean (Json)
+open Pandora Pandora.Config Pandora.ConfigSpec Pandora.InputSpec Pandora.Driver.ConfigJson
 
-def handle (op : String) (_j : Json) : Except String Json :=
-  throw s!"unknown op {op}"
+def dsDescOfJson (j : Json) : Except String DsDesc := do
+  let vars ← field j "vars" >>= listOfJson (fun v => do
+    match v with
+    | Json.arr #[Json.str n, sh] => return (n, ← listOfJson natOfJson sh)
+    | _ => throw "bad var")
+  let imAllNan ← boolOfJson (fieldD j "im_all_nan" (Json.bool false))
+  let bandIm ← (match fieldD j "band_im" Json.null with
+    | Json.null => pure none
+    | b => do return some (← listOfJson boolOfJson b))
+  let bandDisp ← (match fieldD j "band_disp" Json.null with
+    | Json.null => pure none
+    | b => do return some (← listOfJson strOfJson b))
+  let dispMinGtMax ← boolOfJson (fieldD j "disp_min_gt_max" (Json.bool false))
+  let attrs ← field j "attrs" >>= listOfJson strOfJson
+  return { vars, imAllNan, bandIm, bandDisp, dispMinGtMax, attrs }
+
+def unitRes : Except Err Unit → Json := resToJson (fun _ => Json.null)
+
+/-- `check_datasets(left, right)` on the model + the well-formedness specification -/
+def datasets (j : Json) : Except String Json := do
+  let l ← field j "left" >>= dsDescOfJson
+  let r ← field j "right" >>= dsDescOfJson
+  return mkObj [("res", unitRes (checkDatasets l r)),
+                ("res_left", unitRes (checkDataset l)),
+                ("well_formed", Json.bool (datasetsWellFormed l r)),
+                ("failing", listToJson Json.str (failingClauses (pairClauses l r)))]
+
+/-- `check_input_section(user)` on the model + the documented forms -/
+def input (j : Json) : Except String Json := do
+  let sch ← field j "input_schemas" >>= inputSchemasOfJson
+  let files ← field j "files" >>= filesOfJson
+  let user ← field j "user" >>= dictOfJson
+  let fl ← flagsOfJson (fieldD j "flags" (mkObj []))
+  let res := checkInputSection files fl sch (getConfigInput user)
+  let clauses := inputClauses files (Dict.lookup user "input")
+  return mkObj [("res", resToJson (fun d => jvalToJson (.obj d)) res),
+                ("verdict", domToJson (inputVerdict files (Dict.lookup user "input"))),
+                ("rejecting", listToJson Json.str (rejectingClauses clauses)),
+                ("clauses", Json.arr (clauses.map (fun c => Json.arr #[Json.str c.1, domToJson c.2])).toArray)]
+
+def handle (op : String) (j : Json) : Except String Json :=
+  match op with
+  | "C17.datasets" => datasets j
+  | "C17.input" => input j
+  | _ => throw s!"unknown op {op}"
 
 end Pandora.Driver.C17
